@@ -50,6 +50,11 @@ VALUES = ["<absent>", None, True, 0, 1, 2, 3, 1.5, "", "root", "sgx_root", "devi
           "quote", "zz", "00", "abcd", [], ["ui"], {}, {"name": "ui"}, "attestation", "signer"]
 
 
+SIZE_MARKS = sorted([2 ** k for k in range(10, 23)] + [10 ** 4, 10 ** 5, 10 ** 6, 65535,
+                                                        50000, 3 * 2 ** 16])
+SIZE_MARKS_QUICK = len([m for m in SIZE_MARKS if m <= 2 ** 18])
+
+
 def shards(tier, seed):
     if tier == "quick":
         return [{"seed": seed * 1000 + i, "python_O": i % 3 == 2,
@@ -395,6 +400,40 @@ def run_case(acc, steps, cseed, tmpdir, HSMCertificateRoot, X509):
             e["signature"] = g2.sign_der(m2.cert_keys[-1], ext).hex()
     run_doc(acc, steps, d2x, ["att-message-trailing-bytes-signed"], 2, root, tmpdir,
             {"seed": cseed, "which": "trailing"})
+    # ---- documents whose size as a one-line file sits just below a round number of
+    # bytes (a power of two, a power of ten), so that the file the tool writes back -
+    # indented, hence longer - sits above it: whatever the tool accepted and saved, it
+    # must load again.  The bulk is a leaf's signed message (version 1, genuinely signed)
+    # or the quote's custom data (version 2).
+    for version in (1, 2):
+        big = copy.deepcopy(d1 if version == 1 else d2)
+        limit = rng.choice(SIZE_MARKS[:SIZE_MARKS_QUICK] if rng.random() < 0.8 else SIZE_MARKS)
+        if version == 1:
+            parents = info["parents"]
+            leaves = [e for e in big["elements"]
+                      if not any(x["signed_by"] == e["name"] for x in big["elements"])]
+            el = rng.choice(leaves)
+            field = "message"
+        else:
+            el = [e for e in big["elements"] if e["type"] == "sgx_quote"][0]
+            field = "custom_data"
+        el[field] = ""
+        room = limit - rng.randrange(0, 120) - len(json.dumps(big))
+        if room < 2:
+            continue
+        data = rng.randbytes(room // 2)
+        el[field] = data.hex()
+        if version == 1:
+            pn = parents[el["name"]]
+            sk = info["root"] if pn == "root" else info["keys"][pn]
+            if "tweak" in el:
+                sk = g1.tweaked_key(sk, bytes.fromhex(el["tweak"]))
+            el["signature"] = g1.sign(sk, data, rng).hex()
+        acc.count("documents_just_below_a_round_size")
+        acc.counters["max_document_bytes"] = max(acc.counters.get("max_document_bytes", 0),
+                                                 len(json.dumps(big)))
+        run_doc(acc, steps, big, ["size-just-below-%d" % limit], version, root, tmpdir,
+                {"seed": cseed, "which": "size-v%d" % version})
     for j in range(16):
         base, version = (d1, 1) if j % 2 == 0 else (rng.choice([d2, d2t]), 2)
         d, labels = mutate(rng, base, version)
